@@ -336,6 +336,14 @@ theorem ext_namePass (input : Struct) (dta : TraitAttrCore) (k : Kind) (fl : Boo
     · exact ext_memberNameCheck _ _ _ _ _ _ _ hm
   · exact hm
 
+theorem ext_childBareParentPass (input : Struct) (x : TraitAttrCore × Kind) : Ext (fun es => childBareParentPass input es x) := by
+  intro es m hm
+  simp only [childBareParentPass]
+  split
+  · refine mem_foldl_of_mem _ _ _ m (fun p es hm => mem_insert_of_mem _ _ _ hm) ?_
+    exact mem_foldl_of_mem _ _ _ m (fun f es hm => mem_insert_of_mem _ _ _ hm) hm
+  · exact hm
+
 theorem ext_validateFields (input : Struct) (byKind : List (TraitAttrCore × Kind)) (tps : List TypePath) :
     Ext (validateFields input byKind tps) := by
   intro es m hm
@@ -343,10 +351,12 @@ theorem ext_validateFields (input : Struct) (byKind : List (TraitAttrCore × Kin
   simp only
   split
   · refine mem_foldl_of_mem _ _ _ m (fun x es hm => ext_namePass input x.1.core x.2 x.1.fallible es m hm) ?_
+    refine mem_foldl_of_mem _ _ _ m (fun x es hm => ext_childBareParentPass input x es m hm) ?_
     refine mem_foldl_of_mem _ _ _ m (fun x es hm => ext_ghostChildPass input.attrs x es m hm) ?_
     refine mem_foldl_of_mem _ _ _ m (fun ca es hm => ext_childPass _ _ _ ca es m hm) ?_
     exact mem_foldl_of_mem _ _ _ m (fun field es hm => ext_ghostDefaultPass _ field es m hm) hm
-  · refine mem_foldl_of_mem _ _ _ m (fun x es hm => ext_ghostChildPass input.attrs x es m hm) ?_
+  · refine mem_foldl_of_mem _ _ _ m (fun x es hm => ext_childBareParentPass input x es m hm) ?_
+    refine mem_foldl_of_mem _ _ _ m (fun x es hm => ext_ghostChildPass input.attrs x es m hm) ?_
     refine mem_foldl_of_mem _ _ _ m (fun ca es hm => ext_childPass _ _ _ ca es m hm) ?_
     exact mem_foldl_of_mem _ _ _ m (fun field es hm => ext_ghostDefaultPass _ field es m hm) hm
 
